@@ -42,6 +42,9 @@ pub enum Op {
     /// SignInvoice for one of three invoices to be issued: 0 and 1 share a payment hash and
     /// differ in amount and description (the second one presented is refused), 2 is unrelated
     Issue(u8),
+    /// a *different* invoice (other amount) for the payment hash of the most recent invoice, which
+    /// was approved and is registered: refused, and a refusal must not touch the velocity window
+    Conflict,
 }
 
 #[derive(Clone, Default, Debug, Serialize)]
@@ -205,6 +208,7 @@ impl Model for VelModel {
         ]
         .into_iter()
         .chain(if s.ghost.last.is_some() { Some(Op::Retry) } else { None })
+        .chain(if matches!(s.ghost.last, Some((true, _, _, _, true))) { Some(Op::Conflict) } else { None })
         .chain(if self.monitors { vec![Op::Issue(0), Op::Issue(1), Op::Issue(2)] } else { vec![] })
         .collect()
     }
@@ -228,7 +232,7 @@ impl Model for VelModel {
         let mut tag = "ok".to_string();
         let kind = match op {
             Op::Keysend(..) => "add_keysend",
-            Op::Invoice(..) => "add_invoice",
+            Op::Invoice(..) | Op::Conflict => "add_invoice",
             Op::Retry => match s.ghost.last {
                 Some((true, ..)) => "add_invoice",
                 _ => "add_keysend",
@@ -274,15 +278,18 @@ impl Model for VelModel {
                 });
                 tag = r.tag();
             }
-            Op::Keysend(..) | Op::Invoice(..) | Op::Retry => {
+            Op::Keysend(..) | Op::Invoice(..) | Op::Retry | Op::Conflict => {
                 let node = s.w().node.clone();
+                let conflict = matches!(op, Op::Conflict);
+                let saved_last = s.ghost.last;
                 // (invoice?, hash, amount, creation time, approved before?)
                 let (is_inv, h, amt, created, was_approved) = match op {
                     Op::Keysend(h, amt) => (false, *h, *amt, now, false),
                     Op::Invoice(h, amt) => (true, *h, *amt, now, false),
+                    Op::Conflict => (true, s.ghost.last.unwrap().1, PAY_LIMIT / 4, now, false),
                     _ => s.ghost.last.unwrap(),
                 };
-                let retry = matches!(op, Op::Retry);
+                let retry = matches!(op, Op::Retry) || conflict;
                 let appr = s.approver.take();
                 let (r, appr) = {
                     use vls_protocol_signer::approver::Approve;
@@ -309,6 +316,10 @@ impl Model for VelModel {
                 }
                 let approved_now = matches!(r, Outcome::Ok(true));
                 s.ghost.last = Some((is_inv, h, amt, created, was_approved || approved_now));
+                if conflict && !approved_now {
+                    // the registered invoice stays the most recent request
+                    s.ghost.last = saved_last;
+                }
                 match r {
                     // the same approved payment presented again is not a second approval
                     Outcome::Ok(true) if retry && was_approved => {}
